@@ -249,3 +249,310 @@ def count_ops(e):
                         walk(z, lv)
     walk(e)
     return ops, relies, big
+
+
+# ------------------------------------------------------------------ C04
+
+def call(name, *args):
+    return ("call", ("var", name), [("pos", a) for a in args])
+
+
+def log(e):
+    return ("expr", call("append", ("var", "trace"), e))
+
+
+def tag_log(tag, *es):
+    return log(("list", [("int", tag)] + list(es)))
+
+
+CHK = ("deffn", "chk", [("t", None, False), ("v", None, False)],
+       ("block", [("expr", call("append", ("var", "trace"), ("var", "t"))),
+                  ("return", ("var", "v"))], [], None))
+
+
+class FlowGen:
+    """Loop nests with exits, if ladders with logging conditions, iteration
+    over every iterable kind, comprehensions with their explicit-loop twins."""
+
+    def __init__(self, ch, max_loop_depth=3):
+        self.ch = ch
+        self.max_loop_depth = max_loop_depth
+        self.n = 0
+        self.tags = 0
+        self.features = set()
+
+    def fresh(self, p="x"):
+        self.n += 1
+        return f"{p}{self.n}"
+
+    def tag(self):
+        self.tags += 1
+        return self.tags
+
+    # ---- iterables: returns (what, expr, loopvars, {var: kind})
+    def iterable(self):
+        ch = self.ch
+        k = ch.weighted([(4, "list"), (3, "set"), (3, "map"), (2, "str"),
+                         (1, "pairs"), (1, "strset"), (1, "range")])
+        v = self.fresh()
+        if k == "list":
+            n = ch.int(0, 4)
+            return (None, ("list", [("int", ch.int(0, 6)) for _ in range(n)]),
+                    [v], {v: "int"})
+        if k == "range":
+            return (None, call("range", ("int", ch.int(0, 4))), [v],
+                    {v: "int"})
+        if k == "set":
+            self.features.add("set")
+            n = ch.int(1, 4)
+            return (None, ("set", [("int", ch.choice([5, 3, 9, 1, 7, 2, 10]))
+                                   for _ in range(n)]), [v], {v: "int"})
+        if k == "strset":
+            self.features.add("set")
+            n = ch.int(1, 4)
+            return (None, ("set", [("str", ch.choice(["b", "a", "c", "B", "ab",
+                                                     "", "aa"]))
+                                   for _ in range(n)]), [v], {v: "str"})
+        if k == "str":
+            self.features.add("string")
+            return (None, ("str", ch.choice(["abc", "", "ba", "x", "cab"])),
+                    [v], {v: "str"})
+        if k == "pairs":
+            n = ch.int(1, 3)
+            v2 = self.fresh()
+            return (None, ("list", [("list", [("int", ch.int(0, 5)),
+                                              ("int", ch.int(0, 5))])
+                                    for _ in range(n)]), [v, v2],
+                    {v: "int", v2: "int"})
+        self.features.add("map")
+        n = ch.int(1, 4)
+        strkeys = ch.bool()
+        keys = ch.sample(["k2", "k1", "k3", "a", "B"] if strkeys
+                         else [3, 1, 2, 10, 7], n)
+        pairs = [((("str", kk) if strkeys else ("int", kk)),
+                  ("int", ch.int(0, 9))) for kk in keys]
+        m = ("map", pairs)
+        what = ch.choice(["keys", "values", "entries", "entries-d"])
+        kk = "str" if strkeys else "int"
+        if what == "keys":
+            return ("keys", m, [v], {v: kk})
+        if what == "values":
+            return ("values", m, [v], {v: "int"})
+        if what == "entries":
+            return ("entries", m, [v], {v: "pair"})
+        v2 = self.fresh()
+        return ("entries", m, [v, v2], {v: kk, v2: "int"})
+
+    def cond(self, vars_):
+        """A boolean expression over the visible loop variables."""
+        ch = self.ch
+        ints = [n for n, k in vars_.items() if k == "int"]
+        strs = [n for n, k in vars_.items() if k == "str"]
+        if ints and ch.bool(0.7):
+            v = ("var", ch.choice(ints))
+            k = ch.int(0, 3)
+            if k == 0:
+                return ("cmp", [("bin", "%", v, ("int", 2)), ("int", ch.int(0, 1))],
+                        ["=="])
+            if k == 1:
+                return ("cmp", [v, ("int", ch.int(0, 6))],
+                        [ch.choice(["<", ">", "<=", ">=", "==", "!="])])
+            if k == 2 and len(ints) >= 2:
+                return ("cmp", [v, ("var", ch.choice(ints))],
+                        [ch.choice(["<", "==", ">="])])
+            return ("in", v, ("list", [("int", ch.int(0, 5)),
+                                       ("int", ch.int(0, 9))]), ch.bool(0.3))
+        if strs:
+            v = ("var", ch.choice(strs))
+            return ("cmp", [v, ("str", ch.choice(["a", "b", "k1", "c", ""]))],
+                    [ch.choice(["==", "!=", "<", ">="])])
+        return ("bool", ch.bool())
+
+    def logged_cond(self, vars_):
+        if self.ch.bool(0.7):
+            return call("chk", ("int", self.tag()), self.cond(vars_))
+        return self.cond(vars_)
+
+    def observe(self, vars_):
+        names = list(vars_)
+        return tag_log(self.tag(), *[("var", n) for n in names[:3]])
+
+    def exit_stmt(self, loop_depth, in_fn):
+        ch = self.ch
+        opts = []
+        if loop_depth > 0:
+            opts += [("break",), ("break",), ("continue",), ("continue",)]
+        if in_fn:
+            opts += [("return", ("int", self.tag()))]
+        elif loop_depth > 0 and ch.bool(0.1):
+            opts += [("return", ("int", self.tag()))]   # ends the script
+        if not opts:
+            return None
+        e = ch.choice(opts)
+        self.features.add(e[0])
+        if loop_depth >= 2 and e[0] in ("break", "continue"):
+            self.features.add("exit-at-depth>=2")
+        return e
+
+    def body(self, vars_, loop_depth, in_fn, budget):
+        """Statements of a loop/if/function body."""
+        ch = self.ch
+        out = []
+        n = ch.int(1, 4)
+        for _ in range(n):
+            out += self.stmt(vars_, loop_depth, in_fn, budget - 1)
+        return out
+
+    def stmt(self, vars_, loop_depth, in_fn, budget):
+        ch = self.ch
+        if budget <= 0:
+            return [self.observe(vars_)]
+        deep = loop_depth >= 1
+        k = ch.weighted([(3, "log"), (3, "if"), (4 if deep else 2, "exit"),
+                         (5 if loop_depth < self.max_loop_depth else 0, "for"),
+                         (2 if loop_depth < self.max_loop_depth else 0,
+                          "while"),
+                         (4 if deep else 1, "guarded-exit"),
+                         (2 if deep else 1, "finally-exit"),
+                         (1 if not in_fn and loop_depth < 2 else 0, "fncall")])
+        if k == "log":
+            return [self.observe(vars_)]
+        if k == "exit":
+            e = self.exit_stmt(loop_depth, in_fn)
+            if e is None:
+                return [self.observe(vars_)]
+            # an unconditional exit ends the body: statements after it are
+            # generated on purpose (they must not run)
+            return [e]
+        if k == "guarded-exit":
+            e = self.exit_stmt(loop_depth, in_fn)
+            if e is None:
+                return [self.observe(vars_)]
+            return [("if", [(self.logged_cond(vars_), [e])], None)]
+        if k == "finally-exit":
+            e = self.exit_stmt(loop_depth, in_fn)
+            if e is None:
+                return [self.observe(vars_)]
+            self.features.add("exit-through-finally")
+            inner = [self.observe(vars_),
+                     ("if", [(self.cond(vars_), [e])], None),
+                     self.observe(vars_)]
+            return [("block", inner, [], [tag_log(self.tag())])]
+        if k == "if":
+            nb = ch.int(1, 3)
+            branches = []
+            for _ in range(nb):
+                branches.append((self.logged_cond(vars_),
+                                 self.body(vars_, loop_depth, in_fn,
+                                           budget - 1)))
+            else_ = self.body(vars_, loop_depth, in_fn, budget - 1) \
+                if ch.bool() else None
+            if nb >= 2:
+                self.features.add("elif")
+            return [("if", branches, else_)]
+        if k == "for":
+            what, it, lvars, kinds = self.iterable()
+            inner = dict(vars_)
+            inner.update(kinds)
+            body = self.body(inner, loop_depth + 1, in_fn, budget - 1)
+            return [("for", lvars, what, it, body)]
+        if k == "while":
+            c = self.fresh("c")
+            inner = dict(vars_)
+            inner[c] = "int"
+            body = [("opassign", c, "+", ("int", 1))] + \
+                self.body(inner, loop_depth + 1, in_fn, budget - 1)
+            cond = ("cmp", [("var", c), ("int", ch.int(0, 4))], ["<"])
+            if ch.bool(0.5):
+                cond = call("chk", ("int", self.tag()), cond)
+            return [("def", c, ("int", 0)), ("while", cond, body)]
+        # fncall: a function with a loop and a return inside, called here
+        f = self.fresh("f")
+        p = self.fresh("p")
+        self.features.add("function-in-loop" if loop_depth else "function")
+        fbody = self.body({p: "int"}, 0, True, budget - 1) + \
+            [("expr", ("int", self.tag()))]
+        arg = ("int", ch.int(0, 5))
+        ints = [n for n, kk in vars_.items() if kk == "int"]
+        if ints and ch.bool():
+            arg = ("var", ch.choice(ints))
+        return [("deffn", f, [(p, None, False)], ("block", fbody, [], None)),
+                tag_log(self.tag(), call(f, arg))]
+
+    # ---- comprehensions with explicit-loop twins
+    def comprehension(self):
+        ch = self.ch
+        kind = ch.choice(["list", "list", "set", "map"])
+        what, it, lvars, kinds = self.iterable()
+        while len(lvars) != 1 or kinds[lvars[0]] == "pair":
+            what, it, lvars, kinds = self.iterable()
+        x = lvars[0]
+        vars_ = dict(kinds)
+        second = None
+        if kind != "map" and ch.bool(0.5):
+            mode = ch.choice(["for", "also"])
+            what2, it2, lv2, k2 = self.iterable()
+            tries = 0
+            while len(lv2) != 1 or k2[lv2[0]] == "pair":
+                what2, it2, lv2, k2 = self.iterable()
+            if mode == "also":
+                # equal lengths: iterate the same collection twice
+                what2, it2 = what, it
+                k2 = {lv2[0]: kinds[x]}
+            second = (mode, lv2[0], what2, it2)
+            vars_.update(k2)
+            self.features.add("comprehension-" + mode)
+        cond = self.cond(vars_) if ch.bool(0.6) else None
+        if cond is not None:
+            self.features.add("comprehension-if")
+        names = list(vars_)
+        value = ("list", [("var", n) for n in names]) if ch.bool() else \
+            ("var", names[-1])
+        r = self.fresh("r")
+        r2 = self.fresh("r")
+        self.features.add("comprehension-" + kind)
+        if kind == "map":
+            key = ("var", x)
+            comp = ("mcomp", key, value, x, what, it, cond)
+            add = ("setindex", ("var", r2), key, value)
+            init = ("map", [])
+        else:
+            comp = ("lcomp", kind, value, x, what, it, second, cond)
+            add = ("expr", call("append", ("var", r2), value))
+            init = ("list", []) if kind == "list" else ("set", [])
+        inner = [add]
+        if cond is not None:
+            inner = [("if", [(cond, [add])], None)]
+        if second is not None and second[0] == "for":
+            inner = [("for", [second[1]], second[2], second[3], inner)]
+            loop = ("for", [x], what, it, inner)
+            loops = [loop]
+        elif second is not None:
+            # parallel: explicit loop over indices of the two enumerations
+            i = self.fresh("i")
+            a, b = self.fresh("a"), self.fresh("b")
+            en1 = ("lcomp", "list", ("var", x), x, what, it, None, None)
+            en2 = ("lcomp", "list", ("var", second[1]), second[1], second[2],
+                   second[3], None, None)
+            body = [("def", x, ("index", ("var", a), ("var", i))),
+                    ("def", second[1], ("index", ("var", b), ("var", i)))] \
+                + inner
+            loops = [("def", a, en1), ("def", b, en2),
+                     ("for", [i], None, call("range", call("length",
+                                                           ("var", a))), body)]
+        else:
+            loops = [("for", [x], what, it, inner)]
+        return [("def", r, comp), ("def", r2, init)] + loops + [
+            tag_log(self.tag(), ("var", r),
+                    ("cmp", [("var", r), ("var", r2)], ["=="]))]
+
+    def program(self):
+        ch = self.ch
+        stmts = [("def", "trace", ("list", [])), CHK]
+        for _ in range(ch.int(1, 3)):
+            if ch.bool(0.3):
+                stmts += self.comprehension()
+            else:
+                stmts += self.stmt({}, 0, False, ch.int(3, 6))
+        stmts.append(("expr", ("var", "trace")))
+        return stmts
